@@ -34,6 +34,13 @@ theorem lacking_every_role_no_access (res : Res) (user : List String) (h : Lacks
     hasAccess res.required user = false :=
   hasAccess_false_of_disjoint res.required user h.1 h.2
 
+/-- `auth.has_access`, as translated from its source on this run, is the model's `hasAccess` on all role
+lists: no extra way in (super-role, wildcard …) and no extra way out. -/
+theorem has_access_source_is_hasAccess (required user : List String) :
+    hasAccessExpr.eval required user = some (hasAccess required user) := by
+  simp only [hasAccessExpr, AccExpr.eval, SetExpr.eval, hasAccess, bind, Option.bind]
+  rw [nonEmpty_filter_eq_any]
+
 /-! ## Endpoints that call their guard first (any world, any request) -/
 
 /-- A guarded endpoint refuses a user who lacks every required role with 403 and the handler body never
@@ -78,26 +85,48 @@ theorem guarded_endpoint_admits (r : Route) (hg : r.guardedOk = true) (ht : r.to
     simp only [lookupTarget] at hf
     simp [respond, guarded_pass w.runs id user res hf ha]
 
-/-- A filtered listing contains exactly the visible objects: an id is listed only if some listed-from
-object with that id is accessible to the user. -/
-theorem listing_only_accessible (r : Route) (hg : r.guardedOk = true) (hl : r.isListing = true)
+/-- A filtered unit listing shows an id only if an **online** unit of that id is accessible to the user, or no
+unit of that id is online and (in the listing that includes recent engines) a recent-engine row of that id is
+accessible. The online unit's roles win: a stale open RecentEngines row does not justify listing a unit that is
+online and restricted now. -/
+theorem unit_listing_only_accessible (r : Route) (hg : r.guardedOk = true)
+    (ht : r.target = .unitsWithRecent ∨ r.target = .unitsOnline)
     (w : World) (user : List String) (ids : List String) (hr : respond r w "" user = .list ids)
     (id : String) (hid : id ∈ ids) :
-    ∃ res, res ∈ w.units ++ w.recent ++ w.runs ∧ res.id = id ∧ hasAccess res.required user = true := by
+    (∃ res, res ∈ w.units ∧ res.id = id ∧ hasAccess res.required user = true) ∨
+    ((∀ res, res ∈ w.units → res.id ≠ id) ∧ r.target = .unitsWithRecent ∧
+      ∃ res, res ∈ w.recent ∧ res.id = id ∧ hasAccess res.required user = true) := by
   obtain ⟨p, m, h, ro, target, guard, touches, command⟩ := r
-  cases target <;> simp [Route.isListing] at hl <;>
+  rcases ht with ht | ht <;> simp only at ht <;> subst ht <;>
     simp only [Route.guardedOk, decide_eq_true_eq] at hg <;> subst hg <;>
     simp only [respond, Resp.list.injEq] at hr <;> subst hr
-  · simp only [unitListing, if_true, List.mem_append, List.mem_map, List.mem_filter, mem_visible] at hid
-    rcases hid with ⟨res, ⟨h1, h2⟩, h3⟩ | ⟨res, ⟨⟨h1, h2⟩, _⟩, h3⟩
-    · exact ⟨res, by simp [h1], h3, h2⟩
-    · exact ⟨res, by simp [h1], h3, h2⟩
+  · simp only [unitListing, if_true, List.mem_append, List.mem_map, List.mem_filter, mem_visible,
+      Bool.not_eq_true', List.contains_eq_mem, decide_eq_false_iff_not] at hid
+    rcases hid with ⟨res, ⟨h1, h2⟩, h3⟩ | ⟨res, ⟨⟨h1, h2⟩, hn⟩, h3⟩
+    · exact Or.inl ⟨res, h1, h3, h2⟩
+    · refine Or.inr ⟨?_, rfl, res, h1, h3, h2⟩
+      intro u hu e
+      exact hn ⟨u, hu, e.trans h3.symm⟩
   · simp only [unitListing, Bool.false_eq_true, if_false, List.append_nil, List.mem_map, mem_visible] at hid
     obtain ⟨res, ⟨h1, h2⟩, h3⟩ := hid
-    exact ⟨res, by simp [h1], h3, h2⟩
-  · simp only [List.mem_map, mem_visible] at hid
-    obtain ⟨res, ⟨h1, h2⟩, h3⟩ := hid
-    exact ⟨res, by simp [h1], h3, h2⟩
+    exact Or.inl ⟨res, h1, h3, h2⟩
+
+/-- A filtered run listing shows a run only if a stored run of that id is accessible to the user. -/
+theorem run_listing_only_accessible (r : Route) (hg : r.guardedOk = true) (ht : r.target = .runs)
+    (w : World) (user : List String) (ids : List String) (hr : respond r w "" user = .list ids)
+    (id : String) (hid : id ∈ ids) :
+    ∃ res, res ∈ w.runs ∧ res.id = id ∧ hasAccess res.required user = true := by
+  obtain ⟨p, m, h, ro, target, guard, touches, command⟩ := r
+  simp only at ht; subst ht
+  simp only [Route.guardedOk, decide_eq_true_eq] at hg; subst hg
+  simp only [respond, Resp.list.injEq] at hr; subst hr
+  simp only [List.mem_map, mem_visible] at hid
+  obtain ⟨res, ⟨h1, h2⟩, h3⟩ := hid
+  exact ⟨res, h1, h3, h2⟩
+
+/-- the reconnect-with-tightened-roles scenario: online `u` requires `A`, its old recent-engine row is open -/
+example : respond ⟨"/api/process_units", "GET", "get_units", "process_unit", .unitsWithRecent, .filter, true, false⟩
+    ⟨[⟨"u", ["A"]⟩], [⟨"u", []⟩, ⟨"x", []⟩], []⟩ "" [] = .list ["x"] := by decide
 
 /-- …and every accessible online unit / run is listed (nothing is hidden from those entitled). -/
 theorem listing_contains_accessible (r : Route) (hg : r.guardedOk = true) (w : World) (user : List String)
